@@ -76,6 +76,9 @@ func genRound3(c *Ctx, which ...string) {
 	if on("handler-ctx") {
 		genHandlerSeesFieldContext(c)
 	}
+	if on("event-ctx") {
+		genEventUsesOwnContext(c)
+	}
 }
 
 // (1) `__typename` answers the object's own name: the constant of the object function it stands in.
@@ -1117,4 +1120,160 @@ func genHandlerSeesFieldContext(c *Ctx) {
 	if n < 10 {
 		c.R.Fail("handler-sees-field-context: only %d handler calls examined", n)
 	}
+}
+
+// (19) a subscription event is marshalled under the context of the call that delivers it.
+func genEventUsesOwnContext(c *Ctx) {
+	c.R.Rule("event-uses-own-context", "generated subscription field functions: inside the response function func(ctx) graphql.Marshaler, the context handed to the element marshaler is that function's own parameter (errors raised while an event is marshalled belong to the response that delivers it), not the context of the call that set the subscription up", 1)
+	n := 0
+	for _, g := range c.Gen {
+		for _, fn := range c.genFuncs(g) {
+			top := topFn(fn)
+			if fn.Parent() == nil || !isFieldFuncSig(top) {
+				continue
+			}
+			// the response function: func(context.Context) graphql.Marshaler that contains a select
+			sig := fn.Signature
+			if sig.Params().Len() != 1 || sig.Params().At(0).Type().String() != "context.Context" || sig.Results().Len() != 1 || !an.NamedIs(sig.Results().At(0).Type(), pkgGraphql, "Marshaler") {
+				continue
+			}
+			hasSelect := false
+			for _, b := range fn.Blocks {
+				for _, in := range b.Instrs {
+					if _, ok := in.(*ssa.Select); ok {
+						hasSelect = true
+					}
+				}
+			}
+			if !hasSelect || len(fn.Params) == 0 {
+				continue
+			}
+			own := fn.Params[0]
+			// the event may be marshalled by a literal of the field function that the response function calls with its context
+			for _, b := range fn.Blocks {
+				for _, in := range b.Instrs {
+					call, ok := in.(*ssa.Call)
+					if !ok || call.Call.IsInvoke() || call.Call.StaticCallee() != nil && call.Call.StaticCallee().Parent() == nil {
+						continue
+					}
+					isLocalLiteral := false
+					for _, d := range an.Defs(call.Call.Value) {
+						if _, ok := d.(*ssa.MakeClosure); ok {
+							isLocalLiteral = true
+						}
+					}
+					if u, ok := an.Strip(call.Call.Value).(*ssa.UnOp); ok {
+						if _, isFV := u.X.(*ssa.FreeVar); isFV {
+							isLocalLiteral = true
+						}
+					}
+					if _, isFV := an.Strip(call.Call.Value).(*ssa.FreeVar); isFV {
+						isLocalLiteral = true
+					}
+					if !isLocalLiteral {
+						continue
+					}
+					for _, a := range call.Call.Args {
+						if a.Type().String() == "context.Context" {
+							n++
+							c.R.Check(derivesFromParam(a, own, 0), "gen:"+g.Name+"/"+top.Name()+"/event-ctx", c.ipos(call), "the response function's own context", "an event is marshalled under the context of the subscription's set-up call instead of the context of the response function that delivers it")
+						}
+					}
+				}
+			}
+			for _, body := range an.WithClosures(fn) {
+				for _, call := range an.CallsIn(body, func(_ ssa.CallInstruction, ci an.CalleeInfo) bool {
+					return ci.Static != nil && ci.Static.Pkg == g.SSA && strings.HasPrefix(ci.Static.Name(), "marshal")
+				}) {
+					var ctxArg ssa.Value
+					for _, a := range call.Common().Args {
+						if a.Type().String() == "context.Context" {
+							ctxArg = a
+							break
+						}
+					}
+					if ctxArg == nil {
+						continue
+					}
+					n++
+					c.R.Check(derivesFromParam(ctxArg, own, 0), "gen:"+g.Name+"/"+top.Name()+"/event-ctx", c.ipos(call), "the response function's own context", "an event is marshalled under the context of the subscription's set-up call instead of the context of the response function that delivers it: errors raised while marshalling the event land in a response context nobody reads — the event shows null without an error")
+				}
+			}
+		}
+	}
+	if n == 0 {
+		c.R.Fail("event-uses-own-context: no subscription response function found")
+	}
+}
+
+// derivesFromParam: v is parameter p, a load of the cell p was spilled into, or the same seen from a literal that captured it.
+func derivesFromParam(v ssa.Value, p *ssa.Parameter, depth int) bool {
+	if v == nil || depth > 5 {
+		return false
+	}
+	v = an.Strip(v)
+	if v == ssa.Value(p) {
+		return true
+	}
+	switch x := v.(type) {
+	case *ssa.UnOp:
+		if x.Op != token.MUL {
+			return false
+		}
+		switch a := x.X.(type) {
+		case *ssa.Alloc:
+			sts := an.CellStores(a)
+			if len(sts) == 0 {
+				return false
+			}
+			for _, st := range sts {
+				if !derivesFromParam(st.Val, p, depth+1) {
+					return false
+				}
+			}
+			return true
+		case *ssa.FreeVar:
+			cl := a.Parent()
+			for i, f := range cl.FreeVars {
+				if f != a || cl.Parent() == nil {
+					continue
+				}
+				for _, b := range cl.Parent().Blocks {
+					for _, in := range b.Instrs {
+						if mc, ok := in.(*ssa.MakeClosure); ok && mc.Fn == ssa.Value(cl) && i < len(mc.Bindings) {
+							bind := mc.Bindings[i]
+							if al, ok := bind.(*ssa.Alloc); ok {
+								sts := an.CellStores(al)
+								if len(sts) == 0 {
+									return false
+								}
+								for _, st := range sts {
+									if !derivesFromParam(st.Val, p, depth+1) {
+										return false
+									}
+								}
+								return true
+							}
+							return derivesFromParam(bind, p, depth+1)
+						}
+					}
+				}
+			}
+		}
+	case *ssa.FreeVar:
+		cl := x.Parent()
+		for i, f := range cl.FreeVars {
+			if f != x || cl.Parent() == nil {
+				continue
+			}
+			for _, b := range cl.Parent().Blocks {
+				for _, in := range b.Instrs {
+					if mc, ok := in.(*ssa.MakeClosure); ok && mc.Fn == ssa.Value(cl) && i < len(mc.Bindings) {
+						return derivesFromParam(mc.Bindings[i], p, depth+1)
+					}
+				}
+			}
+		}
+	}
+	return false
 }
